@@ -5,14 +5,15 @@ import random
 from . import core, dzn, shell
 from .parser_checks import replay_parallel, _quiet
 
-ITF = {'events': [dzn.event('Do', 'in'), dzn.event('Done', 'out')]}
+ITF = {'events': [dzn.event('Do', 'in'), dzn.event('Claim', 'in', ['Res']), dzn.event('Release', 'in'), dzn.event('Done', 'out')]}
 
 
 def model_tokens(P, R, Inj, order_seed=0):
     ports = [dzn.port(p, ['I'], 'provides') for p in P] + [dzn.port(r, ['I'], 'requires') for r in R] + \
             [dzn.port(i, ['I'], 'requires', True) for i in Inj]
     random.Random(order_seed).shuffle(ports)
-    return shell.decl('interface', 'I', ITF) + shell.decl('component', 'C', {'ports': ports})
+    return shell.decl('enum', 'Res', {'fields': ['Ok', 'No']}) + shell.decl('interface', 'I', ITF) + \
+        shell.decl('component', 'C', {'ports': ports})
 
 
 def run_case(case):
@@ -21,7 +22,9 @@ def run_case(case):
     from dznpy.adv_shell.types import AdvShellError  # pylint: disable=import-outside-toplevel
     P, R, Inj = case['P'], case['R'], case['Inj']
     fct = shell.parse(model_tokens(P, R, Inj, len(P) * 7 + len(R)))
-    desc = shell.default_cfg(provides=case['prov'], requires=case['req'])
+    desc = shell.default_cfg(provides=case['prov'], requires=case['req'],
+                             multiclient={'port': case['mc'], 'claim': 'Claim', 'grant': ['Ok'], 'release': 'Release'}
+                             if case.get('mc') else None)
     stg = _quiet(shell.staged_build, desc, fct)
     obs = {'stage': stg.stage, 'exc': stg.exc_name, 'files': None, 'f': None, 'k': None, 'match': None}
     if stg.ok:
@@ -29,10 +32,12 @@ def run_case(case):
         obs['files'] = [g.filename for g in stg.result.files]
         obs['f'] = shell.semantics_of_recipe(stg.builder)
         hdr = stg.result.files[0].contents
-        obs['header_ok'] = all(f'> {p}: I' in hdr for p in obs['f'])
+        obs['header_ok'] = all(f'> {p}: ' in hdr for p in obs['f'])
         obs['match'] = {k: v.name for k, v in stg.cfg.ports_cfg.match(set(P), set(R) | set(Inj)).value.items()}
     elif isinstance(stg.exc, AdvShellError) and stg.diagnosed:
         obs['k'] = 'reject'
+    elif case.get('mc') and isinstance(stg.exc, ValueError) and stg.diagnosed and str(stg.exc).strip():
+        obs['k'] = 'reject'          # multi-client on a non-MTS port: a worded ValueError (lenient reading, see C13)
     else:
         obs['k'] = 'internal'
     return obs
@@ -117,7 +122,7 @@ def check_c03(tier, seed):
             raise core.MachineryError(f'{cfg}: no cases')
         chk.sample(cases[len(cases) // 2])
         replay_parallel(chk, cases, replay_portsel_case, cfg,
-                        lambda c: json.dumps([c['prov'], c['req'], c['P'], c['R'], c['Inj']], sort_keys=True))
+                        lambda c: json.dumps([c['prov'], c['req'], c['P'], c['R'], c['Inj'], c.get('mc', '')], sort_keys=True))
         chk.traces += len(cases)
     rng = random.Random(seed + 3)
     traces = [_quiet(record_trace, rng, f'p{seed}-{i}') for i in range(500 if tier == 'quick' else 6000)]
